@@ -186,6 +186,15 @@ impl Node {
             }
         }
         {
+            // what a reader of the pending table is handed (get_pending_opp_copy — the election's wait loops poll it)
+            let mut ids: Vec<u64> = self.dbs.pending_opps.read().unwrap().keys().cloned().collect(); ids.sort();
+            for id in ids {
+                if let Some(c) = self.dbs.get_pending_opp_copy(id) {
+                    out.push(format!("D pendcopy {} rc={} ac={} full={}", c.opp_id, c.count_replication(), c.count_acknowledged(), if c.is_full_acknowledged() { 1 } else { 0 }));
+                }
+            }
+        }
+        {
             let cs = self.dbs.cluster_state.lock().unwrap();
             let ms = cs.members.lock().unwrap();
             let mut names: Vec<&String> = ms.keys().collect();
